@@ -167,9 +167,10 @@ static uint64_t lcg(uint64_t *s) { *s = *s * 6364136223846793005ULL + 1442695040
 static uint64_t fnv(uint64_t h, uint64_t v) { for (int k = 0; k < 8; k++) { h ^= (v >> (8 * k)) & 0xff; h *= 0x100000001b3ULL; } return h; }
 static int big(uint64_t seed) {
     static const char *names[7] = {"single", "complete", "average", "weighted", "ward", "centroid", "median"};
-    static const size_t sizes[3] = {2048, 2049, 2311};
-    for (int si = 0; si < 3; si++) for (int mi = 0; mi < 7; mi++) for (int wide = 1; wide >= 0; wide--) {
+    static const size_t sizes[5] = {2048, 2049, 2311, 8194, 12288};
+    for (int si = 0; si < 5; si++) for (int mi = 0; mi < 7; mi++) for (int wide = 1; wide >= 0; wide--) {
         size_t n = sizes[si], len = n * (n - 1) / 2;
+        if (n > 4000 && mi != 0 && mi != 2) continue;   /* the largest sizes: two fast methods only */
         kodama_method m; if (!method_by_name(names[mi], &m)) return 2;
         uint64_t st = seed * 1000003ULL + (uint64_t)(si * 100 + mi * 10 + wide);
         kodama_dendrogram *d;
